@@ -631,6 +631,30 @@ pub fn run(ctx: &Ctx) -> Report {
             }
         }
     }
+    // E3: coverage-guided campaign over the generators' decisions (thorough tier)
+    if ctx.tier == Tier::Thorough {
+        let secs: u64 = std::env::var("DMV_FUZZ_SECS").ok().and_then(|s| s.parse().ok()).unwrap_or(240);
+        match super::fuzzrun::run_campaign(ctx, "expand_any", secs, 8, true) {
+            Ok(c) => {
+                rep.evidence.set("fuzz_expand_any_executions", json!(c.runs));
+                rep.evidence.eval(c.runs);
+                for bytes in c.crashes {
+                    let dice: Vec<u16> = bytes.chunks(2).map(|c| u16::from_le_bytes([c[0], *c.get(1).unwrap_or(&0)])).collect();
+                    match fuzz_one(dice) {
+                        Some((derive, item, msg, sig)) => rep.violations.push(Violation {
+                            sig,
+                            summary: format!("internal failure at {} deriving {derive}: {}", msg.split(':').next().unwrap_or("").trim_start_matches("panic at "), msg),
+                            case: json!({"derive": derive, "item": item}),
+                            expected: "Ok, Err(diagnostic) or a deliberate panic!/assert! diagnostic".into(),
+                            observed: msg,
+                        }),
+                        None => rep.infra_errors.push("fuzz target expand_any crashed on an input the in-process oracle accepts (timeout/oom?)".into()),
+                    }
+                }
+            }
+            Err(e) => rep.infra_errors.push(format!("fuzz campaign expand_any: {e}")),
+        }
+    }
     // bounded time
     let t = timing_families();
     let mut by_fam: BTreeMap<String, Vec<(usize, f64)>> = BTreeMap::new();
